@@ -62,6 +62,27 @@ DESC = {
  "C13-2": ("`Default` derived for structs named Optional…", "optional nested object holding a required nested object (E0277) — rustc only"),
  "C15-1": ("optional array member rendered `#[serde(default)] Vec<T>`", "list member absent in one source and null in another"),
  "C15-2": ("Tuple arm of shape_representation ignores `optional`", "tuple member absent in one source / null in another"),
+ # ---- round 2 (fresh sub-agents, after all fixes and both proof merges)
+ "C02-4": ("Object ⊆ Object fast path for equal member counts compares values pairwise in key order, never the names", "objects with the same number of members, different key names, position-wise compatible values"),
+ "C02-5": ("Tuple ⊆ Tuple arity test hoisted and `==` became `<=` (zip truncates)", "source tuple strictly shorter than the target tuple"),
+ "C03-4": ("from_sources skips samples 'already covered' but the test is written the wrong way round (`seen.is_subset(&value)`)", "a later, strictly wider sample after a narrower one (order-dependent); merged shape OneOf-free"),
+ "C10-5": ("`similar` Array/Array arm returns `other.clone()` (receiver's optional flag lost)", "optional receiver, non-optional argument"),
+ "C10-6": ("Null arm of is_subset rewritten as a match; the OneOf case tests `variants.contains(Null)` and ignores the flag", "optional OneOf without a Null variant (what `OneOf + Null` produces)"),
+ "C11-4": ("Display of Tuple rewritten element-by-element; the empty case returns before the optional flag is looked at", "empty tuple with optional = true (hand-built)"),
+ "C11-5": ("`skip_serializing_if = \"BTreeMap::is_empty\"` on Object.content without `default`", "any shape containing an empty object, e.g. from_str(\"{}\")"),
+ "C12-4": ("value path 'fast path for homogeneous arrays' infers elements, compares, then falls through and infers again (2^d)", "nested heterogeneous arrays `[[..,\"s\"],\"s\"]`"),
+ "C12-5": ("Object ⊆ Object fail-fast loop added, second pass left in place (2^d on the positive path)", "nested non-optional objects where the relation holds"),
+ "C05-5": ("parse_string: escape skipping folded into `bump(1 + is_some)` (counts the escaped char as one byte)", "backslash followed by a non-ASCII character: logos bump lands inside a UTF-8 sequence, panic"),
+ "C07-5": ("member names decoded through `serde_json::from_str::<&str>` with raw fallback (borrowed str cannot hold escapes)", "any escaped member name: `{\"\\u0061\":1}` vs `{\"a\":1}`"),
+ "C04-7": ("parse_source trims the text with `trim_end()` (Unicode White_Space, a superset of JSON whitespace)", "VT, FF, NEL, NBSP, U+2028 ... after the document"),
+ "C05-6": ("has_errors trims the reported fragment (`.trim()`), span left alone", "error node whose text begins/ends with whitespace: unterminated string ending in a space"),
+ "C01-4": ("Object+Object merge takes the optional flag from the accumulator only", "incoming optional object from array-of-objects inference: `{\"k\":[{\"a\":{..}}]}` then `{\"k\":[{\"a\":{..}},{}]}`"),
+ "C08-5": ("Tuple+Tuple slot fold loses its `else if a.is_null()` branch", "null slot in the FIRST source: `[null,\"x\"]` then `[1,\"x\"]`"),
+ "C09-5": ("Array+Tuple arm no longer flattens an accumulated OneOf element type", "accumulator already `Array<OneOf[..]>`, then the tuple re-added: nests one level per repetition"),
+ "C16-5": ("compile_json reordered: the output file is created before the sources are read ('fail early on a bad OUT_DIR')", "any later error (unreadable source, empty list) leaves an empty / truncated output file"),
+ "C13-3": ("'fast path' in the Array arm of create_subtype: recurse only when the element type is an Object or OneOf", "objects under array-of-array or array-of-tuple: referenced struct never defined (E0425)"),
+ "C14-4": ("Array arm of shape_representation takes the optional flag from the element type", "array below the root whose flag differs from its element's flag"),
+ "C15-3": ("keyword-safe field names with an over-inclusive keyword table (weak keywords raw/safe/union get a `_` suffix, no serde rename)", "member named `raw`, `safe`, `union` or `macro_rules`: module compiles, source no longer deserializes"),
 }
 
 def main():
